@@ -1,8 +1,11 @@
 #!/bin/bash
-# usage: tools/run_seed.sh <seed-name> <PROPERTY> [tier]  - applies the patch to /repo, runs the check, reverts
+# usage: tools/run_seed.sh <seed-name> <PROPERTY> [tier]  - applies the patch to /repo, runs the check, reverts.
+# The evidence file of the property is saved and restored: evidence committed in /verif only ever comes from the unchanged tree.
 name=$1; prop=$2; tier=${3:-quick}
 cd /repo && git diff --quiet || { echo "/repo dirty"; exit 2; }
 git -C /repo apply /verif/seeded/$name/patch.diff || { echo "patch does not apply"; exit 2; }
-cd /verif; ./check $prop --tier $tier > /verif/seeded/$name/check_$prop.log 2>&1; rc=$?
+cd /verif; cp -f evidence/$prop.json /tmp/evidence_$prop.$$ 2>/dev/null
+./check $prop --tier $tier > /verif/seeded/$name/check_$prop.log 2>&1; rc=$?
 git -C /repo checkout -- .
+[ -f /tmp/evidence_$prop.$$ ] && mv -f /tmp/evidence_$prop.$$ evidence/$prop.json
 echo "$name $prop rc=$rc $(grep -c '^VIOLATION' /verif/seeded/$name/check_$prop.log) violation line(s)"; grep -A2 '^VIOLATION' /verif/seeded/$name/check_$prop.log | head -6
